@@ -1,6 +1,16 @@
 use crate::nodes::{
     BinaryExpression, BinaryOperator, Block, DoStatement, Expression, Statement, VariableAssignment,
 };
+use crate::process::processors::FindVariables;
+use crate::process::{DefaultVisitor, NodeVisitor};
+
+const DISCARD_VARIABLE: &str = "_";
+
+fn uses_discard_variable(expression: &Expression) -> bool {
+    let mut find_usage = FindVariables::new(DISCARD_VARIABLE);
+    DefaultVisitor::visit_expression(&mut expression.clone(), &mut find_usage);
+    find_usage.has_found_usage()
+}
 
 fn get_inner_expression(mut expression: Expression) -> Expression {
     loop {
@@ -15,10 +25,27 @@ fn get_inner_expression(mut expression: Expression) -> Expression {
 pub(crate) fn expressions_as_statement(expressions: Vec<Expression>) -> Statement {
     let mut statements: Vec<Statement> = Vec::new();
 
-    for value in expressions {
+    // a value stored in `local _` must not be visible to a later expression that reads a
+    // variable named `_`: such a value gets its own block
+    let mut used_later = vec![false; expressions.len()];
+    let mut found = false;
+    for (index, value) in expressions.iter().enumerate().rev() {
+        used_later[index] = found;
+        found = found || uses_discard_variable(value);
+    }
+
+    for (value, used_later) in expressions.into_iter().zip(used_later) {
         match get_inner_expression(value) {
             Expression::Call(call) => {
                 statements.push((*call).into());
+            }
+            value if used_later => {
+                statements.push(
+                    DoStatement::new(Block::default().with_statement(
+                        VariableAssignment::from_variable(DISCARD_VARIABLE).with_value(value),
+                    ))
+                    .into(),
+                );
             }
             value => {
                 if let Some(assign) = statements.last_mut().and_then(|statement| match statement {
@@ -28,7 +55,7 @@ pub(crate) fn expressions_as_statement(expressions: Vec<Expression>) -> Statemen
                     assign.push_value(value);
                 } else {
                     statements.push(
-                        VariableAssignment::from_variable("_")
+                        VariableAssignment::from_variable(DISCARD_VARIABLE)
                             .with_value(value)
                             .into(),
                     );
